@@ -208,7 +208,7 @@ def run(res, a):
             for c in flat:
                 mism.append(({1: "the assembler's program differs from the model's", 2: "the machine's R/N/M/O differ from the model's sizing",
                               3: "the model rejects a source the assembler accepts", 4: "the inferred sizes do not fit the program"}[c], meta))
-            if div and not flat:
+            if div:
                 if not first:
                     hist["entry_not_first_diverges"] += 1
                     if "c05_entry_label_not_first_instruction" in known:
